@@ -86,8 +86,9 @@ ASSUMPTIONS = [
 ]
 TRUSTED = [
     "well-formedness of output crowns built by the provider (distinct keys per dict node, sieves on field children, "
-    "required fields at list positions) is a hypothesis of dumpCrown_writes_exact_path / dump_load_roundtrip; "
-    "validated by the layout-out and model-dump correspondences, not proved",
+    "required fields at list positions) is a hypothesis of dumpCrown_writes_exact_path / dump_load_roundtrip, not "
+    "proved for the builder; the driver evaluates it on every output crown of the layout correspondence "
+    "(suite out-crown-wellformed)",
     "Python str ordering = Lean String ordering by code point (crown builder's sort), validated by the layout correspondence",
 ]
 
@@ -1097,8 +1098,8 @@ def suite_layouts(ctx: Ctx, real: Real, drv, n_programs: int):
             requests.append({"op": "path_of", "dir": d, **st})
             meta.append((prog, own, parent, d, "path_of"))
     replies = drv.batch(requests) if drv else [None] * len(requests)
-    n = {"layout-inp": 0, "layout-out": 0, "pathof-spec": 0}
-    bad = {"layout-inp": 0, "layout-out": 0, "pathof-spec": 0}
+    n = {"layout-inp": 0, "layout-out": 0, "pathof-spec": 0, "out-crown-wellformed": 0}
+    bad = {"layout-inp": 0, "layout-out": 0, "pathof-spec": 0, "out-crown-wellformed": 0}
     cache = {}
     for (prog, own, parent, d, what), rep in zip(meta, replies):
         key = id(prog)
@@ -1127,6 +1128,14 @@ def suite_layouts(ctx: Ctx, real: Real, drv, n_programs: int):
                 if "ok" not in rep or canon_layout(rep["ok"]) != canon_layout(real_l):
                     bad[f"layout-{d}"] += 1
                     ctx.disagree(f"layout-{d}", case, canon_layout(real_l), rep)
+                elif d == "out" and ok:
+                    # hypothesis of the dumper theorems (`OutCrown.wf`: distinct keys per dict node, sieves on field
+                    # children, required fields at list positions) evaluated by the driver on the crown, which
+                    # equals the real one
+                    n["out-crown-wellformed"] += 1
+                    if rep["ok"].get("wf") is not True:
+                        bad["out-crown-wellformed"] += 1
+                        ctx.disagree("out-crown-wellformed", case, "well-formed output crown expected", rep)
         else:
             eff = py_effective(prog)
             if eff is None or rep is None:
@@ -2616,10 +2625,10 @@ def run(ctx: Ctx):
             drv = Driver("drv_c03")
         except InfraError:
             drv = None
-    suite_layouts(ctx, real, drv, ctx.budget(1000, 8000))
-    suite_gen_load(ctx, real, drv, ctx.budget(170, 1600), n_combo=ctx.budget(6, 10))
-    suite_gen_dump(ctx, real, drv, ctx.budget(300, 2500), n_combo=ctx.budget(5, 10))
-    suite_models(ctx, real, drv, ctx.budget(230, 1800), n_combo=ctx.budget(4, 8))
+    suite_layouts(ctx, real, drv, ctx.budget(800, 8000))
+    suite_gen_load(ctx, real, drv, ctx.budget(140, 1600), n_combo=ctx.budget(6, 10))
+    suite_gen_dump(ctx, real, drv, ctx.budget(250, 2500), n_combo=ctx.budget(5, 10))
+    suite_models(ctx, real, drv, ctx.budget(190, 1800), n_combo=ctx.budget(4, 8))
     ctx.extra["oracle_cases_skipped"] = ctx.dist.get("oracle-skipped", 0)
     # ./check starts the directed search only when no oracle failure at all was seen; the listed known finding is
     # seen on every run, so a broken correspondence is followed up here
